@@ -75,7 +75,7 @@ def oneshot(uid, at, keyed, algo):
     P(f'  ensures [C02.{n}.healthy_stores_exact_bytes]')
     P(f'    old(w).healthy && r is Ok && {G} && !old(w).fs.dirs.contains({CP}) ==> final(w).fs.files.contains_key({CP}) && final(w).fs.files[{CP}] == data@ && !final(w).fs.links.contains_key({CP})')
     if keyed:
-        P(f'  ensures [C02+C04+C11.{n}.ok_appends_the_record]')
+        P(f'  ensures [C02+C04+C05+C11.{n}.ok_appends_the_record]')
         P(f'    r is Ok && {G} ==> exists|m: crate::index::MetaV| #![trigger crate::index::json_of_v(m)]')
         P(f'        m.key == key@ && m.integrity == Some(sri_string({D})) && m.size == data@.len() && crate::index::is_clock_millis(m.time)')
         P(f'        && m.metadata == crate::shims::serde_json::Value::Null && m.raw_metadata is None')
